@@ -569,6 +569,9 @@ func (g *gen) errAndVariadic(f *Fn) {
 		if g.pct(20, "errpos?") {
 			f.ErrAt = 1 + g.pick(len(f.R)+1, "errat")
 		}
+		if g.pct(12, "errt") {
+			f.ErrT = "iface"
+		}
 	}
 	if g.pct(g.k.PVariadic, "variadic?") {
 		f.Var = g.pickStr(g.k.Types, "vart")
@@ -881,7 +884,7 @@ func (g *gen) genProvide(s int) Op {
 		op.O = o
 	}
 	if g.pct(g.k.PReencode, "reenc") {
-		af := &Fn{ID: f.ID, Err: f.Err, ErrAt: f.ErrAt, Var: f.Var, Faults: f.Faults, EK: f.EK, PK: f.PK, Dur: f.Dur}
+		af := &Fn{ID: f.ID, Err: f.Err, ErrT: f.ErrT, ErrAt: f.ErrAt, Var: f.Var, Faults: f.Faults, EK: f.EK, PK: f.PK, Dur: f.Dur}
 		ao := *o
 		af.P = g.encodeParamsAlt(pl)
 		switch {
@@ -1019,7 +1022,7 @@ func (g *gen) genDecorate(s int) (Op, bool) {
 	}
 	var altF *Fn
 	if g.pct(g.k.PReencode, "reenc") {
-		af := &Fn{ID: f.ID, Err: f.Err, ErrAt: f.ErrAt, Var: f.Var, Faults: f.Faults, EK: f.EK, PK: f.PK, Dur: f.Dur}
+		af := &Fn{ID: f.ID, Err: f.Err, ErrT: f.ErrT, ErrAt: f.ErrAt, Var: f.Var, Faults: f.Faults, EK: f.EK, PK: f.PK, Dur: f.Dur}
 		af.P = g.encodeParamsAlt(pl)
 		af.R = g.encodeResults(rl, g.pct(50, "forceobj"))
 		if g.k.WrapAlt {
@@ -1124,10 +1127,13 @@ func (g *gen) genInvoke(s int) Op {
 	f.P = g.encodeParams(ipl)
 	if g.pct(g.k.PErr, "err?") {
 		f.Err = true
+		if g.pct(15, "errt") {
+			f.ErrT = "iface"
+		}
 	}
 	g.faults(f)
 	if g.pct(g.k.PReencode, "reenc") {
-		af := &Fn{ID: f.ID, Err: f.Err, Faults: f.Faults, EK: f.EK, PK: f.PK}
+		af := &Fn{ID: f.ID, Err: f.Err, ErrT: f.ErrT, Faults: f.Faults, EK: f.EK, PK: f.PK}
 		af.P = g.encodeParamsAlt(ipl)
 		if g.k.WrapAlt {
 			af.P = g.wrapParams(f.P)
